@@ -16,7 +16,7 @@ package scenario
 //@ func (a *Scenario) Clone
 //@ props C11
 //@ modifies nothing
-//@ ensures typeis(result, *Scenario) && fresh(result.(*Scenario)) && result.(*Scenario).Calls == a.Calls && result.(*Scenario).Name == a.Name && result.(*Scenario).VariableStorage == a.VariableStorage && result.(*Scenario).id == 0
+//@ ensures typeis(result, *Scenario) && fresh(result.(*Scenario)) && result.(*Scenario).Calls == a.Calls && result.(*Scenario).Name == a.Name && result.(*Scenario).MinWaitingTime == a.MinWaitingTime && result.(*Scenario).VariableStorage == a.VariableStorage && result.(*Scenario).id == 0
 
 // New variables never replace earlier ones; only the first map is written.
 //@ func mergeMaps
